@@ -71,6 +71,16 @@ CHECKS = {
         design_ref='DESIGN.md 5 / C14',
         technique='Coq proof (list reasoning over signatures) + extracted-model correspondence + independent signature-comparison oracle',
         note=NOTE_COMMON + ' D2 fixed by commit ebe368d.'),
+    'C03': dict(
+        category='other',
+        text='Partial. Proved in Coq: in the model of check_all a -j N run prints exactly the sequential output for every completion order of the workers, and a '
+             'multi-file run is the concatenation of the single-file runs (given that checking one file is a function of that file); and, over the python ast '
+             'regenerated on every run, no set/frozenset/key-algebra is consumed in an order-sensitive way outside two reviewed benign sites. Explored, not proved: '
+             'hash seeds {0,1,2,3,random}, argument permutations and prefixes, histories, -j {1..16} and repeated runs through the real CLI, each compared with the '
+             'concatenation of single-file seed-0 outputs. Real scheduling and interpreter state are not in the model.',
+        design_ref='DESIGN.md 5 / C03',
+        technique='Coq proof about the check_all model + regenerated set-iteration table (vm_compute) + CLI schedule/seed/history exploration',
+        note=NOTE_COMMON + ' The set-iteration detector is syntactic (trusted, not a type checker). D6 fixed by commit a257859.'),
 }
 
 NA_REASON = 'check not built yet (work in progress; see DESIGN.md section 8 for build order)'
